@@ -435,3 +435,34 @@ def single_pass_data_rule(ctx, rule):
         g = wr.func(q)
         loops = [norm(n.iter) for n in ast.walk(g) if isinstance(n, ast.For) and 'data' in {x.id for x in ast.walk(n.iter) if isinstance(x, ast.Name)}]
         ctx.ob(rule, 'writer.%s:data-iterated-exactly-once' % q, len(loops) == 1 and loops[0] == 'enumerate(data)', str(loops), wr.loc(g))
+
+
+def index_normalisation_rule(ctx, rule):
+    """on the routes that add to an existing dataset (append arm of write, overwrite) the frame's row index is
+    turned into columns exactly when the *dataset* records index columns: the guard of reset_row_idx there
+    depends on the opened handle only, and precedes the hand-over to write_row_groups"""
+    wr = ctx.repo['writer']
+    n = 0
+    for q in ('write', 'overwrite'):
+        f = wr.func(q)
+        cfg = CFG(f)
+        hand = [_stmt_of(f, c) for c in _calls(f, 'pf.write_row_groups')]
+        resets = []
+        for c in _calls(f, 'reset_row_idx'):
+            st = _stmt_of(f, c)
+            tests = [(e, fld) for e, fld in cfg.enclosing_tests(st) if isinstance(e, ast.If)]
+            on_append_route = any(cfg.exists_path(cfg.node_of(st), cfg.node_of(h)) for h in hand)
+            if on_append_route:
+                resets.append((st, tests))
+        ctx.ob(rule, 'writer.%s:index-normalised-before-the-append' % q, len(resets) == 1,
+               '%d reset_row_idx site(s) lead to pf.write_row_groups' % len(resets), wr.loc(f))
+        for st, tests in resets:
+            n += 1
+            inner = tests[-1][0] if tests else None
+            names = {x.id for x in ast.walk(inner.test) if isinstance(x, ast.Name)} if inner is not None else set()
+            ok = inner is not None and names == {'pf'} and norm(inner.test) == 'pf._get_index()' and tests[-1][1] == 'body'
+            ctx.ob(rule, 'writer.%s:index-normalisation-decided-by-the-dataset-alone' % q, ok,
+                   'guard `%s`: a dataset with index columns needs them from every appended frame (also from one with a '
+                   'default RangeIndex); a guard that looks at the new frame changes the column set and the append is refused '
+                   'or misaligned' % (norm(inner.test) if inner is not None else '(unconditional)'), wr.loc(st))
+    ctx.floor(rule, 'index normalisation sites on append routes', n, 2)
